@@ -62,3 +62,59 @@ pub proof fn lemma_subset_count(a: Dir, b: Dir)
 {
     vstd::set_lib::lemma_len_subset(b.names(), a.names());
 }
+
+/// the effect the statement allows for one rule dump: delete oldest first, then add one file
+pub open spec fn deleted_oldest_then_added_one(o: Dir, n: Dir) -> bool {
+    exists|mid: Dir| #[trigger] removed_oldest_first(o, mid) && added_at_most_one(mid, n) && mid.names().subset_of(n.names())
+}
+
+pub open spec fn min_int(a: int, b: int) -> int { if a <= b { a } else { b } }
+
+pub proof fn lemma_added_refl(a: Dir)
+    ensures added_at_most_one(a, a), removed_oldest_first(a, a),
+{
+    let p: PathBuf = arbitrary();
+    assert(a.names().subset_of(a.names().insert(p)));
+}
+
+/// deleting the first `c` entries of a sorted duplicate-free listing leaves |l| - c files and removes oldest first
+pub proof fn lemma_prefix_removed(l: Seq<PathBuf>, d0: Dir, d: Dir, c: int)
+    requires
+        d0.wf(), is_listing(l, d0), 0 <= c <= l.len(),
+        d.names().subset_of(d0.names()),
+        forall|p: PathBuf| #[trigger] d.files.contains_key(p) ==> d.files[p] == d0.files[p],
+        forall|k: int| c <= k < l.len() ==> d.files.contains_key(#[trigger] l[k]),
+        forall|k: int| 0 <= k < c ==> !d.files.contains_key(#[trigger] l[k]),
+    ensures
+        d.wf(), d.count() == l.len() - c, removed_oldest_first(d0, d),
+{
+    let s = l.subrange(c, l.len() as int);
+    assert(s.no_duplicates());
+    s.unique_seq_to_set();
+    assert(d.names() =~= s.to_set()) by {
+        assert forall|p: PathBuf| d.names().contains(p) implies s.to_set().contains(p) by {
+            assert(l.to_set().contains(p));
+            let k = choose|k: int| 0 <= k < l.len() && l[k] == p;
+            assert(k >= c);
+            assert(s[k - c] == p);
+        }
+        assert forall|p: PathBuf| s.to_set().contains(p) implies d.names().contains(p) by {
+            let k = choose|k: int| 0 <= k < s.len() && s[k] == p;
+            assert(l[k + c] == p);
+        }
+    }
+    assert forall|x: PathBuf, y: PathBuf| d0.names().contains(x) && !d.names().contains(x) && #[trigger] d.names().contains(y)
+        implies #[trigger] path_le(x, y) by {
+        assert(l.to_set().contains(x));
+        assert(l.to_set().contains(y));
+        let a = choose|k: int| 0 <= k < l.len() && l[k] == x;
+        let b = choose|k: int| 0 <= k < l.len() && l[k] == y;
+        assert(a < c);
+        assert(b >= c);
+    }
+}
+
+/// File::create / OpenOptions::append on the current log file: creates it empty if it is absent, else leaves it
+pub open spec fn created_if_absent(f: Map<PathBuf, nat>, p: PathBuf) -> Map<PathBuf, nat> {
+    if f.contains_key(p) { f } else { f.insert(p, 0) }
+}
